@@ -1,4 +1,4 @@
-HOOK_COMMITS = ["74cfa34e", "caf03176"]
+HOOK_COMMITS = ["74cfa34e", "caf03176", "dc5bb3c7", "4c1fecd0"]
 
 NOT_APPLICABLE = {}
 
